@@ -33,12 +33,16 @@ NewRun(ev) ==
   LET P == [data |-> ev.data, items |-> ev.items, interp |-> ev.interp, stdin |-> ev.stdin]
       C == Compile(P)
       L == Load(P)
-  IN [P |-> P, C |-> C, L |-> L, d |-> [Boot(P, C, L.mem) EXCEPT !.phase = "boot"], msg |-> << >>, n |-> ev.n]
+      \* why the program must be refused with a diagnostic ("" = it must run)
+      refuse == IF L.over THEN "over" ELSE ""
+  IN [P |-> P, C |-> C, L |-> L, d |-> [Boot(P, C, L.mem) EXCEPT !.phase = "boot"], msg |-> << >>, n |-> ev.n,
+      refuse |-> refuse]
 
 \* a message citing a source line is pending after PRINT / INT 0 / INT 3 / unsupported AH
 Pending(kind, e, idx) == <<kind, idx, e.line, IF kind = "int3" THEN "" ELSE e.text>>
 
 OnAsm(r, ev) ==
+  /\ Check(r.refuse = "", "reject-" \o r.refuse, <<"the program was accepted; it must be refused:", r.refuse>>)
   /\ Check(r.d.phase = "boot", "order", <<"asm in phase", r.d.phase>>)
   /\ Check(Len(ev.code) = Len(r.C.code), "asm", <<"instructions emitted", Len(ev.code), "source instructions", Len(r.C.code)>>)
   /\ run' = [r EXCEPT !.d.phase = "load"]
@@ -76,6 +80,7 @@ OnCmd(r, ev) ==
 
 OnStep(r, ev) ==
   LET d == r.d
+      refused == r.refuse # ""
       due == PromptDue(r.P, r.C, d)
       ins == InsAt(r.C, r.L.labels, ev.idx)
       evx == [idx |-> ev.idx, ast |-> ins, out |-> ev.out, arg |-> ev.arg, regs |-> ev.regs, flags |-> ev.flags,
@@ -94,6 +99,7 @@ OnStep(r, ev) ==
   IN \* a prompt must have preceded this invocation while stepping (optional before re-invoking a REP line)
      /\ Check(d.phase = "invoke" \/ (d.phase = "fetch" /\ (~due \/ d.rep)), "prompt",
               <<"instruction invoked in phase", d.phase, "prompt due", due>>)
+     /\ Check(~refused, "reject-" \o r.refuse, <<"an instruction of a program that must be refused was executed", ev.line>>)
      /\ Check(ev.idx = d.idx, "control", <<"executed index", ev.idx, ev.line, "expected index", d.idx>>)
      /\ Check(ev.out \in Outcomes, "total", <<"outcome", ev.out, ev.err>>)
      /\ IF ok THEN TRUE
@@ -130,8 +136,10 @@ OnInt(r, ev) ==
      /\ run' = [r EXCEPT !.d = [d2 EXCEPT !.m = [d.m EXCEPT !.regs = ev.regs, !.flags = ev.flags, !.mem = obs @@ d.m.mem]]]
 
 OnDiag(r, ev) ==
-  /\ V("diag", <<"diagnostic for a valid program", ev.stage, ev.msg>>)
-  /\ run' = [r EXCEPT !.d.phase = "done", !.d.outfree = TRUE]
+  /\ Check(r.refuse # "", "diag", <<"diagnostic for a valid program", ev.stage, ev.msg>>)
+  /\ Check(ev.msg # "", "reject-" \o r.refuse, <<"empty diagnostic">>)
+  /\ Check(r.d.phase \in {"boot", "load"}, "reject-" \o r.refuse, <<"diagnostic after execution began, phase", r.d.phase>>)
+  /\ run' = [r EXCEPT !.d.phase = "done", !.d.outfree = TRUE, !.d.why = "diag"]
 
 OnExit(r, ev) ==
   LET d == r.d IN
@@ -152,7 +160,8 @@ OnStdout(r, ev) ==
       no == Norm(ev.bytes)
       okk == IF d.outfree \/ d.why = "unexpected" THEN TRUE
              ELSE exact \/ (~d.charout /\ ne = no)
-  IN /\ Check(~ev.timeout, "hang", <<"the emulator did not terminate; last phase", d.phase, "index", d.idx>>)
+  IN /\ Check(r.refuse = "" \/ d.why = "diag", "reject-" \o r.refuse, <<"no diagnostic was produced for a program that must be refused:", r.refuse>>)
+     /\ Check(~ev.timeout, "hang", <<"the emulator did not terminate; last phase", d.phase, "index", d.idx>>)
      /\ Check(ev.timeout \/ ev.status = 0, "total", <<"exit status", ev.status>>)
      /\ Check(ev.timeout \/ d.phase = "done", "control", <<"run ended in phase", d.phase, "index", d.idx>>)
      /\ Check(ev.timeout \/ ev.status # 0 \/ okk, "stdout",
